@@ -892,6 +892,11 @@ impl img::DiskImage for Td0 {
     }
     fn to_bytes(&mut self) -> Vec<u8> {
         let mut ans: Vec<u8> = Vec::new();
+        // the comment flag has to say what follows the header
+        match (self.comment_header.as_ref(),self.comment_data.as_ref()) {
+            (Some(_),Some(_)) => self.header.stepping |= COMMENT_MASK,
+            _ => self.header.stepping &= !COMMENT_MASK
+        }
         self.header.crc = u16::to_le_bytes(crc16(0,&self.header.to_bytes()[0..10]));
         ans.append(&mut self.header.to_bytes());
         match (self.comment_header.as_mut(),self.comment_data.as_ref()) {
@@ -1040,8 +1045,16 @@ impl img::DiskImage for Td0 {
             putByte!(val,key_path,td0,self.header.drive_type);
             putByte!(val,key_path,td0,self.header.stepping);
             putByte!(val,key_path,td0,self.header.dos_alloc_flag);
-            putByte!(val,key_path,td0,self.header.sides);
+            if meta::match_key(key_path,&[&td0,"header","sides"]) {
+                warn!("skipping read-only `sides`");
+                return Ok(());
+            }
             if meta::match_key(key_path, &[&td0,"comment","notes"]) {
+                // the length field of the comment block is 16 bits, a line break is stored as one byte
+                if val.replace("\r\n","\n").len() > u16::MAX as usize {
+                    error!("TD0 notes are limited to {} bytes",u16::MAX);
+                    return Err(Box::new(img::Error::MetadataMismatch));
+                }
                 self.comment_data = Some(val.to_string());
                 if self.comment_header.is_none() {
                     self.comment_header = Some(CommentHeader {
